@@ -36,7 +36,7 @@ def req_universe(f, d):
     if f == "sub":
         if d.get("eval"):
             return [{"Age": 30, "Name": "alice"}, {"Age": 10, "Name": "bob"}, "alice"]
-        return SUBS + ROLES + ["root", ""]
+        return SUBS + ROLES + ["root", "", "super.corp", "super_corp"]
     if f == "obj":
         if d.get("abac"):
             return [{"owner": "alice"}, {"owner": "bob"}, {"other": "alice"}, "data1"]
